@@ -832,7 +832,10 @@ class _Namespaces:
             ns_rules,
             key=operator.attrgetter('namespaceURI'),
         )
-        return {rule.prefix: rule.namespaceURI for rule in unique_rules}
+        # in document order: the last declaration of a prefix is effective
+        return {
+            rule.prefix: rule.namespaceURI for rule in reversed(list(unique_rules))
+        }
 
     def get(self, prefix, default):
         return self.namespaces.get(prefix, default)
